@@ -391,6 +391,20 @@ func (mem *CListMempool) resCbFirstTime(
 				return
 			}
 
+			// The cache is bounded independently of the pool, so a transaction
+			// that is still in the mempool may have been evicted from the cache
+			// and reach this point a second time. Record the new sender and do
+			// not add it again.
+			if e, ok := mem.txsMap.Load(types.Tx(tx).Key()); ok {
+				memTx := e.(*clist.CElement).Value.(*mempoolTx)
+				memTx.senders.LoadOrStore(peerID, true)
+				mem.logger.Debug(
+					"transaction already in the mempool, not adding it again",
+					"tx", types.Tx(tx).Hash(),
+				)
+				return
+			}
+
 			memTx := &mempoolTx{
 				height:    mem.height,
 				gasWanted: r.CheckTx.GasWanted,
